@@ -127,6 +127,8 @@ pub fn row_capacity() -> u64 {
             latch_partial: false,
             by_ref: false,
             builder_order: 0,
+            zst_rst: false,
+            bus_from: false,
         };
         let pixels: Vec<(i32, i32, u32)> = (0..1000).map(|x| (x + 50, 1, (x * 7 + 1) as u32)).collect();
         let case = Case { property: "C20m".into(), seed: 0, config: cfg, program: vec![Op::DrawIter { pixels }], faults: vec![], mode: String::new() };
@@ -660,6 +662,8 @@ fn base_config(rng: &mut Rng, model: ModelId, transport: Transport, w: u16, h: u
         latch_partial: rng.coin(),
         by_ref: !transport.pin_level() && rng.chance(1, 3),
                 builder_order: if rng.chance(1, 3) { rng.below(720) as u16 | ((rng.below(2) as u16) << 15) } else { 0 },
+                zst_rst: rng.chance(1, 3),
+                bus_from: rng.chance(1, 3),
     }
 }
 
@@ -1025,6 +1029,8 @@ pub fn run_index(prop: &str, idx: u64, vseed: u64, tier: Tier) -> RunResult {
                     latch_partial: rng.coin(),
                     by_ref: rng.chance(1, 3),
                     builder_order: if rng.chance(1, 3) { rng.below(720) as u16 | ((rng.below(2) as u16) << 15) } else { 0 },
+                zst_rst: rng.chance(1, 3),
+                bus_from: rng.chance(1, 3),
                 }
             } else {
                 let model = *rng.pick(&BUILTIN_MODELS);
